@@ -12,6 +12,7 @@ CONSTANTS
   BottomRule = "l0limit"
   LevelLoop = "once"
   RegisterRule = "first"
+  MaxFail = 1
 INVARIANTS TypeOK FlushScheduled CompactionScheduled ImmBounded NeverStuck
 PROPERTIES CommitReturns CloseReturns
 CHECK_DEADLOCK FALSE
